@@ -271,16 +271,16 @@ theorem facts_config :
 normal forms of the methods; `a0` is the argument) -/
 theorem facts_bump :
     Facts.C14.bumpPaths =
-      ["when abs(max(0, cost + a0) - _cost_last) Gt 100: cost := max(0, cost + a0); do recalc_concurrency()",
-       "when not abs(max(0, cost + a0) - _cost_last) Gt 100: cost := max(0, cost + a0)"] := rfl
+      ["when abs(max(0, a0 + cost) - _cost_last) Gt 100: cost := max(0, a0 + cost); do recalc_concurrency()",
+      "when abs(max(0, a0 + cost) - _cost_last) LtE 100: cost := max(0, a0 + cost)"] := rfl
 theorem facts_recalc :
     Facts.C14.recalcPaths =
-      ["when cost_hard_limit - cost_soft_limit LtE 0: _cost_last := max(0, cost - (time.time() - _cost_time) * cost_decay_per_sec); _cost_time := time.time(); cost := max(0, cost - (time.time() - _cost_time) * cost_decay_per_sec); return ",
-       "when not cost_hard_limit - cost_soft_limit LtE 0: _cost_fraction := max(0.0, (max(0, cost - (time.time() - _cost_time) * cost_decay_per_sec) + extra_cost() - cost_soft_limit) / (cost_hard_limit - cost_soft_limit)); _cost_last := max(0, cost - (time.time() - _cost_time) * cost_decay_per_sec); _cost_time := time.time(); cost := max(0, cost - (time.time() - _cost_time) * cost_decay_per_sec); do _incoming_concurrency.set_target(max(0, ceil((1.0 - max(0.0, (max(0, cost - (time.time() - _cost_time) * cost_decay_per_sec) + extra_cost() - cost_soft_limit) / (cost_hard_limit - cost_soft_limit))) * initial_concurrent)))"] := rfl
+      ["when cost_hard_limit - cost_soft_limit Gt 0: _cost_fraction := max(0.0, (max(0, cost - cost_decay_per_sec * (time.time() - _cost_time)) + extra_cost() - cost_soft_limit) / (cost_hard_limit - cost_soft_limit)); _cost_last := max(0, cost - cost_decay_per_sec * (time.time() - _cost_time)); _cost_time := time.time(); cost := max(0, cost - cost_decay_per_sec * (time.time() - _cost_time)); do _incoming_concurrency.set_target(max(0, ceil((1.0 - max(0.0, (max(0, cost - cost_decay_per_sec * (time.time() - _cost_time)) + extra_cost() - cost_soft_limit) / (cost_hard_limit - cost_soft_limit))) * initial_concurrent)))",
+      "when cost_hard_limit - cost_soft_limit LtE 0: _cost_last := max(0, cost - cost_decay_per_sec * (time.time() - _cost_time)); _cost_time := time.time(); cost := max(0, cost - cost_decay_per_sec * (time.time() - _cost_time)); return "] := rfl
 /-- the charging sites pass exactly the model's charges to `bump_cost`; the client override -/
 theorem facts_charges :
-    Facts.C14.dataReceivedPaths = ["when always: recv_size := recv_size + len(a0); do bump_cost(len(a0) * bw_cost_per_byte)"] ∧
-    Facts.C14.bumpErrorsPaths = ["when always: errors := errors + 1; do bump_cost(error_base_cost + getattr(a0, 'cost', 0.0))"] ∧
+    Facts.C14.dataReceivedPaths = ["when always: recv_size := len(a0) + recv_size; do bump_cost(len(a0) * bw_cost_per_byte)"] ∧
+    Facts.C14.bumpErrorsPaths = ["when always: errors := 1 + errors; do bump_cost(getattr(a0, 'cost', 0.0) + error_base_cost)"] ∧
     Facts.C14.chargeSendMessage = ["len(message) * bw_cost_per_byte"] ∧
     Facts.C14.clientOverride = "if SessionKind.CLIENT Eq session_kind: cost_hard_limit = 0" ∧
     Facts.C14.extraCostDefault = ["return 0.0"] ∧
@@ -290,10 +290,10 @@ theorem facts_charges :
 theorem facts_refusal_branch :
     Facts.C14.refusalBranchRequest =
       ["on_disconnect_due_to_excessive_session_cost",
-       "result = RPCError(JSONRPC.EXCESSIVE_RESOURCE_USAGE, 'excessive resource usage')",
-       "disconnect = True"] ∧
+       "v3 = RPCError(JSONRPC.EXCESSIVE_RESOURCE_USAGE, 'excessive resource usage')",
+       "v1 = True"] ∧
     Facts.C14.refusalBranchMessage = ["on_disconnect_due_to_excessive_session_cost", "close"] ∧
-    Facts.C14.disconnectTail = ["if disconnect: close"] ∧
+    Facts.C14.disconnectTail = ["If:if v1:;    await close()"] ∧
     Facts.C14.excessiveResourceUsage = -101 ∧
     Facts.C14.sleepGuard = ["if _cost_fraction: sleep(_cost_fraction * cost_sleep)",
                             "if _cost_fraction: sleep(_cost_fraction * cost_sleep)"] :=
